@@ -16,15 +16,19 @@ import (
 	"time"
 	"unsafe"
 
+	"github.com/NethermindEth/juno/builder"
 	"github.com/NethermindEth/juno/consensus/driver"
 	"github.com/NethermindEth/juno/consensus/p2p"
+	"github.com/NethermindEth/juno/consensus/proposal"
 	"github.com/NethermindEth/juno/consensus/starknet"
 	"github.com/NethermindEth/juno/consensus/tendermint"
 	"github.com/NethermindEth/juno/consensus/types"
 	"github.com/NethermindEth/juno/consensus/types/actions"
 	"github.com/NethermindEth/juno/consensus/types/wal"
 	"github.com/NethermindEth/juno/consensus/walstore"
+	"github.com/NethermindEth/juno/core"
 	"github.com/NethermindEth/juno/core/felt"
+	"github.com/NethermindEth/juno/core/pending"
 	"github.com/NethermindEth/juno/db"
 	junosync "github.com/NethermindEth/juno/sync"
 	"github.com/NethermindEth/juno/utils/log"
@@ -146,7 +150,10 @@ type Cfg struct {
 	PMul    int      `json:"pmul"`
 	Me      int      `json:"me"`
 	C0      uint64   `json:"c0"`      // chain height at first boot
-	AppMode string   `json:"appmode"` // stable | fresh
+	AppMode string   `json:"appmode"` // stable | fresh | store
+	// everStored: values for which some process instance of this case held a build result (mode
+	// "store"), to recognise a validity answer that changed only because the store was lost.
+	everStored map[uint64]bool
 }
 
 func (c *Cfg) TotalVotingPower(types.Height) types.VotingPower {
@@ -206,6 +213,24 @@ type app struct {
 	height uint64
 	k      uint64
 	calls  int
+	// mode "store": validity is what the real proposer answers — "a build result for this value
+	// is in the proposal store" (consensus/proposer.Valid) — with the REAL proposal.ProposalStore,
+	// which consensus.Init creates empty, in memory, at every process start.
+	store     *proposal.ProposalStore[H]
+	cfg       *Cfg
+	lostValid []uint64 // values judged invalid now although an earlier process instance held them
+}
+
+func (a *app) storeResult(v, h uint64) {
+	if a.store == nil {
+		return
+	}
+	a.store.Store(hashOf(v), &builder.BuildResult{PreConfirmed: &pending.PreConfirmed{
+		Block: &core.Block{Header: &core.Header{Number: h}}}})
+	if a.cfg.everStored == nil {
+		a.cfg.everStored = map[uint64]bool{}
+	}
+	a.cfg.everStored[v] = true
 }
 
 func (a *app) Value() V {
@@ -218,11 +243,19 @@ func (a *app) Value() V {
 	for !validVal(v) {
 		v++
 	}
+	a.storeResult(v, a.height) // proposer.finish stores its own build result
 	return valOf(v)
 }
 
 func (a *app) Valid(v V) bool {
 	f := (*felt.Felt)(&v)
+	if a.store != nil {
+		ok := a.store.Get(v.Hash()) != nil
+		if !ok && isU64(f) && a.cfg.everStored[f.Uint64()] {
+			a.lostValid = append(a.lostValid, f.Uint64())
+		}
+		return ok
+	}
 	return !isU64(f) || validVal(f.Uint64())
 }
 
@@ -272,6 +305,11 @@ type epoch struct {
 	flushedN []int    // number of appended entries that are durable at boundary k
 	appended []string // entry tokens in SetWALEntry order
 	timers   []types.Timeout
+
+	failAt     int    // fault injection: the effect with this index fails (flush error / commit refused); -1 = none
+	failedAt   int    // number of effects performed when the injected fault hit (-1: not yet)
+	closedSnap string // image after a regular stop (Run returned, store closed)
+	inner      driver.CommitListener[V, H]
 
 	curInput         int
 	replayDone       bool
@@ -384,6 +422,10 @@ func (s *storeWrap) snapshot() {
 }
 
 func (s *storeWrap) Flush() error {
+	if s.ep.failAt == len(s.ep.effects) && s.ep.failedAt < 0 {
+		s.ep.failedAt = len(s.ep.effects)
+		return fmt.Errorf("injected: flush fails")
+	}
 	s.ep.record("flush")
 	err := s.real.Flush()
 	if err != nil {
@@ -480,7 +522,19 @@ func (l lst[M]) Listen() <-chan M { return l.ch }
 
 type commitSink struct{ ep *epoch }
 
-func (c commitSink) OnCommit(_ context.Context, h types.Height, v V) bool {
+func (c commitSink) OnCommit(ctx context.Context, h types.Height, v V) bool {
+	if c.ep.failAt == len(c.ep.effects) && c.ep.failedAt < 0 {
+		c.ep.failedAt = len(c.ep.effects)
+		return false
+	}
+	if c.ep.inner != nil {
+		// the real commit listener: looks the build result up in the proposal store, hands the
+		// block to the persister (this harness acknowledges it), finalises the height in the store
+		if !c.ep.inner.OnCommit(ctx, h, v) {
+			c.ep.errs = append(c.ep.errs, fmt.Sprintf("commitlistener: refused height %d (no build result in the proposal store)", uint64(h)))
+			return false
+		}
+	}
 	c.ep.record(fmt.Sprintf("deliver:%d:%s", uint64(h), valS(&v)))
 	c.ep.chainNow = uint64(h)
 	c.ep.app.committed(uint64(h))
@@ -542,8 +596,8 @@ const stepDeadline = 20 * time.Second
 
 // startEpoch boots a process instance on a copy of the crash image `image` ("" = empty disk) with
 // the chain at height `chain`, and waits until replay and the first ProcessStart are done.
-func startEpoch(cfg *Cfg, base, image string, chain, epochNo uint64) (*epoch, error) {
-	ep := &epoch{cfg: cfg, base: base, chain: chain, boot: chain + 1, chainNow: chain, curInput: -1,
+func startEpoch(cfg *Cfg, base, image string, chain, epochNo uint64, failAt int) (*epoch, error) {
+	ep := &epoch{cfg: cfg, base: base, chain: chain, boot: chain + 1, chainNow: chain, curInput: -1, failAt: failAt, failedAt: -1,
 		sentinelCh: make(chan struct{}, 1), done: make(chan error, 1),
 		propCh: make(chan *starknet.Proposal), prevCh: make(chan *starknet.Prevote), precCh: make(chan *starknet.Precommit)}
 	ep.dir = filepath.Join(base, "db")
@@ -555,7 +609,11 @@ func startEpoch(cfg *Cfg, base, image string, chain, epochNo uint64) (*epoch, er
 			return nil, err
 		}
 	}
-	ep.app = &app{mode: cfg.AppMode, epoch: epochNo, height: chain + 1}
+	ep.app = &app{mode: cfg.AppMode, epoch: epochNo, height: chain + 1, cfg: cfg}
+	if cfg.AppMode == "store" {
+		ep.app.store = &proposal.ProposalStore[H]{}
+		ep.inner = driver.NewCommitListener[V, H](log.NewNopZapLogger(), ep.app.store)
+	}
 	ep.real = tendermint.New[V, H, A](log.NewNopZapLogger(), addrOf(cfg.Me), ep.app, cfg, types.Height(chain+1))
 	st, err := walstore.NewTendermintWALStore[V, H, A](pathOnly{path: ep.dir})
 	if err != nil {
@@ -577,6 +635,18 @@ func startEpoch(cfg *Cfg, base, image string, chain, epochNo uint64) (*epoch, er
 	ep.timeoutCh = timeoutChan(&d)
 	ctx, cancel := context.WithCancel(context.Background())
 	ep.cancel = cancel
+	if ep.inner != nil {
+		go func() { // the block persister
+			for {
+				select {
+				case cb := <-ep.inner.Listen():
+					cb.Persisted <- nil
+				case <-ctx.Done():
+					return
+				}
+			}
+		}()
+	}
 	go func() {
 		defer func() {
 			if r := recover(); r != nil {
@@ -619,6 +689,11 @@ func (ep *epoch) feed(idx int, in Input) error {
 	dl := time.After(stepDeadline)
 	switch in.K {
 	case "p":
+		if validVal(in.Val) {
+			// consensus/p2p/validator stores the build result of a proposal it could execute
+			// before the proposal reaches the state machine
+			ep.app.storeResult(in.Val, in.H)
+		}
 		v := valOf(in.Val)
 		m := &starknet.Proposal{MessageHeader: in.header(), ValidRound: types.Round(in.VR), Value: &v}
 		select {
@@ -660,9 +735,15 @@ func (ep *epoch) feed(idx int, in Input) error {
 
 // stop ends the process instance regularly (context cancelled, Run returns, the store is closed)
 // and seals the observation.
-func (ep *epoch) stop() {
+func (ep *epoch) stop() { ep.stopVia(false) }
+
+// stopVia ends the process either by cancelling its context or — the other regular way out of
+// `listen` — by closing a message listener's channel.
+func (ep *epoch) stopVia(closeListener bool) {
 	ep.boundary()
-	if ep.cancel != nil {
+	if closeListener {
+		close(ep.precCh)
+	} else if ep.cancel != nil {
 		ep.cancel()
 	}
 	select {
@@ -672,6 +753,13 @@ func (ep *epoch) stop() {
 		}
 	case <-time.After(stepDeadline):
 		ep.errs = append(ep.errs, "run does not return after cancel")
+	}
+	if closeListener && ep.cancel != nil {
+		ep.cancel()
+	}
+	ep.closedSnap = filepath.Join(ep.base, "closed")
+	if err := copyDir(ep.dir, ep.closedSnap); err != nil {
+		ep.errs = append(ep.errs, "snapshot: "+err.Error())
 	}
 }
 
